@@ -63,6 +63,14 @@ class Prop(BaseProp):
                                              "kwargs_doc_trigger_string": ":keyword"},
                                    "rst": {"file_extensions_in_titles": rng.random() < 0.3}})
             common = ["-s", cfg] + (["-p", prefix] if prefix else [])
+            # exclude patterns (same in every variant): a glob matching several siblings, a bare name, and filters with an
+            # inner slash that are anchored and therefore never match an absolute path, whatever the working directory is
+            if rng.random() < 0.6:
+                pool = ["e*.cmake", "*_last.cmake", "a*", rng.choice(sorted(os.path.basename(f) for f in tree.files)),
+                        "proj/sub/", "proj/a.cmake", "loc1/proj/", "sub/e1.cmake", "./proj"]
+                for pat in rng.sample(pool, rng.randint(1, 3)):
+                    common += ["-e", pat]
+                res.count("runs_with_exclude_patterns")
             if single:
                 rel_in = rng.choice(sorted(tree.files))
                 target = lambda root: os.path.join(root, rel_in)          # noqa: E731
@@ -128,7 +136,7 @@ class Prop(BaseProp):
             else:
                 res.violate("variant-run-failed:cwd", str(o.exc)[:200], wit)
             # (c) moved to another absolute location with the same base name
-            loc2 = os.path.join(sb, "another", "deeper", "place", "proj")
+            loc2 = os.path.join(sb, "Q_moved", "deeper", "place", "proj")   # no component that a generated pattern could match
             shutil.copytree(loc1, loc2)
             o = runner.run_main([target(loc2), "-o", out_dir("moved")] + flags, cwd=home, home=home)
             if o.ok:
